@@ -126,7 +126,7 @@ type Sim struct {
 	round   int
 
 	sawTrunc, sawRelay, sawDup, sawReorder, sawCompactAfterDelete bool
-	sawSkewExpiry, sawRecover                                     bool
+	sawSkewExpiry, sawRecover, sawDeadAndLiveHolder bool
 	f3Excluded                                                    int
 }
 
@@ -1045,6 +1045,50 @@ func (s *Sim) checkAll() {
 	}
 	if s.on("C14") {
 		s.checkC14()
+	}
+	if s.on("C01") {
+		s.checkC01()
+	}
+}
+
+// checkC01: routing completeness. If a node's routing table lists some other
+// node as active with a positive count for an endpoint, a lookup finds a server.
+func (s *Sim) checkC01() {
+	for _, x := range s.nodes {
+		for _, ep := range simEps {
+			var holder string
+			dead := 0
+			for _, n := range x.cs.Nodes() {
+				if n.ID == x.id || n.Endpoints[ep] <= 0 {
+					continue
+				}
+				if n.Status == cluster.NodeStatusActive {
+					holder = n.ID
+				} else {
+					dead++
+				}
+			}
+			rn, ok := x.cs.LookupEndpoint(ep)
+			if holder != "" {
+				s.c.Class("lookup-with-live-holder")
+				if dead > 0 {
+					s.c.Class("lookup-with-live-and-dead-holders")
+					s.sawDeadAndLiveHolder = true
+				}
+				// map order decides which holder is visited first: ask repeatedly
+				for i := 0; i < 8 && ok; i++ {
+					rn, ok = x.cs.LookupEndpoint(ep)
+				}
+				if !ok {
+					s.c.Fatalf("C01@%s: lookup(%s) finds no server although the routing table lists %s as active with upstreams for it (%d other holders are left/unreachable)", x.id, ep, holder, dead)
+				}
+				if rn.Endpoints[ep] <= 0 || rn.Status != cluster.NodeStatusActive || rn.ID == x.id {
+					s.c.Fatalf("C01@%s: lookup(%s) returned %+v", x.id, ep, rn)
+				}
+			} else if ok {
+				s.c.Fatalf("C01@%s: lookup(%s) returned %+v although no active node advertises it", x.id, ep, rn)
+			}
+		}
 	}
 }
 
